@@ -27,10 +27,24 @@ Theorem make_normalised : forall d p, make d true = Ok p ->
 Proof. exact make_normalised_lemma. Qed.
 Print Assumptions make_normalised.
 
-(* every valid dictionary with a positive total is accepted; with normalisation off it is kept as it is *)
-Theorem make_accepts_valid : forall d, valid d = true -> 0 < mass d -> exists p, make d true = Ok p.
+(* every valid dictionary with a positive total that is not below sys.float_info.min = 2^-1022 is accepted (the code
+   refuses to divide by a total in (0, float_min): "too small values"); with normalisation off it is kept as it is *)
+Theorem tiny_means : forall s, tiny s = true <-> 0 < s /\ s < 1 # (2 ^ 1022).
+Proof. exact tiny_iff. Qed.
+Print Assumptions tiny_means.
+
+Theorem make_accepts_valid : forall d, valid d = true -> 0 < mass d -> tiny (mass d) = false ->
+  exists p, make d true = Ok p.
 Proof. exact make_accepts. Qed.
 Print Assumptions make_accepts_valid.
+
+Theorem make_rejects_tiny_total : forall d, valid d = true -> tiny (mass d) = true -> make d true = Err ValueErr.
+Proof. exact make_tiny_mass. Qed.
+Print Assumptions make_rejects_tiny_total.
+
+Theorem make_normalised_total_not_tiny : forall d p, make d true = Ok p -> tiny (mass d) = false.
+Proof. exact make_true_not_tiny. Qed.
+Print Assumptions make_normalised_total_not_tiny.
 
 Theorem make_without_normalisation : forall d, valid d = true -> make d false = Ok d.
 Proof. exact make_false. Qed.
@@ -242,9 +256,7 @@ Print Assumptions js_sym.
    Stats/DistTrSupport.v).  The theorems below state that the generated definitions, over the exact number
    structure num_Q, ARE the model functions of Stats/Dist.v that the theorems above are about, on the model's
    values embedded into the Python values (eraw / edist / eres, Stats/DistGenProofs.v).  [req] is equality of
-   results up to == on the values (Python's sum() adds from the left, the model from the right).
-   [tiny s] is the branch 0 < s < sys.float_info.min of normalize_measurement_outcome_distribution, which the
-   model does not have: the agreement is stated outside it, and what the code does inside it is stated separately. *)
+   results up to == on the values (Python's sum() adds from the left, the model from the right). *)
 Require Import OQ.Stats.DistTrSupport OQ.Gen.DistributionsGen OQ.Stats.DistGenProofs.
 Close Scope R_scope.
 Open Scope Q_scope.
@@ -304,42 +316,32 @@ Theorem generated_is_normalized_is_model : forall d,
 Proof. exact is_normalized_gen_eq. Qed.
 Print Assumptions generated_is_normalized_is_model.
 
-Theorem generated_normalize_is_model : forall d, NoDup (map fst d) -> tiny (mass d) = false ->
+(* distinct keys is the representation invariant of a dict *)
+Theorem generated_normalize_is_model : forall d, NoDup (map fst d) ->
   req (normalize_measurement_outcome_distribution_gen num_Q (edist d)) (eres (normalize_dict d)).
 Proof. exact normalize_gen_eq. Qed.
 Print Assumptions generated_normalize_is_model.
 
-Theorem generated_normalize_tiny_total : forall d, tiny (mass d) = true ->
-  normalize_measurement_outcome_distribution_gen num_Q (edist d) = Raise ValueError.
-Proof. exact normalize_gen_tiny. Qed.
-Print Assumptions generated_normalize_tiny_total.
-
-Theorem generated_init_is_model : forall r n, (forall d, preprocess r = Ok d -> tiny (mass d) = false) ->
+Theorem generated_init_is_model : forall r n,
   req (MeasurementOutcomeDistribution_init_gen num_Q (eraw r) n) (eres (make_raw r n)).
 Proof. exact init_gen_eq. Qed.
 Print Assumptions generated_init_is_model.
 
-Theorem generated_init_preprocessed_is_model : forall d n, NoDup (map fst d) -> tiny (mass d) = false ->
+Theorem generated_init_preprocessed_is_model : forall d n, NoDup (map fst d) ->
   req (MeasurementOutcomeDistribution_init_gen num_Q (edist d) n) (eres (make d n)).
 Proof. exact init_gen_make_eq. Qed.
 Print Assumptions generated_init_preprocessed_is_model.
-
-(* where the model deviates from the code: it normalises a valid dictionary whose total lies in (0, float_min),
-   the code raises ValueError *)
-Theorem generated_init_tiny_total : forall d, NoDup (map fst d) -> valid d = true -> tiny (mass d) = true ->
-  MeasurementOutcomeDistribution_init_gen num_Q (edist d) true = Raise ValueError.
-Proof. exact init_gen_tiny. Qed.
-Print Assumptions generated_init_tiny_total.
 
 Theorem generated_save_keys_is_model : forall d, NoDup (map fst d) ->
   change_tuple_dict_keys_to_comma_separated_integers_gen num_Q (edist d) = Ret (eraw (save d)).
 Proof. exact save_gen_eq. Qed.
 Print Assumptions generated_save_keys_is_model.
 
-(* keys of one length is the class invariant (every object is built by __init__); the model reads an entry
-   beyond the end of a shorter key as 0 where the code raises IndexError *)
+(* the hypothesis - keys of one length - is the class invariant: self.distribution_dict is only ever set by __init__,
+   which accepts nothing else (valid_means); without it the model reads an entry beyond the end of a shorter key
+   as 0 where the code raises IndexError *)
 Theorem generated_subdistribution_is_model : forall qs d,
-  Forall (fun kv => List.length (fst kv) = nsub d) d -> tiny (mass d) = false ->
+  Forall (fun kv => List.length (fst kv) = nsub d) d ->
   req (MeasurementOutcomeDistribution_subdistribution_gen num_Q (edist d) (map Z.of_nat qs))
       (eres (fst (subdistribution qs d))).
 Proof. exact sub_gen_eq. Qed.
@@ -350,7 +352,10 @@ Example generated_init_runs :
           [(PKStr "10,2", 1 # 2); (PKTup [PEInt 0; PEInt 3], 3 # 2)] true with
   | Ret [(PKTup [PEInt 10; PEInt 2], v1); (PKTup [PEInt 0; PEInt 3], v2)] => v1 == 1 # 4 /\ v2 == 3 # 4
   | _ => False
-  end /\ tiny (mass [([10; 2]%nat, 1 # 2); ([0; 3]%nat, 3 # 2)]) = false.
+  end /\
+  MeasurementOutcomeDistribution_init_gen num_Q [(PKTup [PEInt 0], 1 # (2 ^ 1030)); (PKTup [PEInt 1], 1 # (2 ^ 1030))] true
+    = Raise ValueError /\
+  make [([0]%nat, 1 # (2 ^ 1030)); ([1]%nat, 1 # (2 ^ 1030))] true = Err ValueErr.
 Proof. vm_compute. repeat split; reflexivity. Qed.
 
 Example generated_subdistribution_runs :
